@@ -35,8 +35,30 @@ def describe(tier):
     )
 
 
+# user snippets with several top-level elements: attributes written on the alias go to every top-level element
+MULTI_DEFS = [[('x', '.p'), ('y', '.q')], [('x', ''), ('y', '')], [('x', '[t=1]'), ('y', '.q[t=2]')], [('x', '.p'), ('y', '.q'), ('z', '#i')]]
+MULTI_EXTRAS = ['.z', '[t=3]', '.z.w', '#j.z', '[u=4].z']
+
+
+def check_multi(defn, extra, rev, repeat):
+    table = {'ka': '+'.join(n + a for n, a in defn)}
+    alias = 'ka' + extra + ('*2' if repeat else '')
+    if rev:
+        body = '+'.join(n + extra + a for n, a in defn)
+    else:
+        body = '+'.join(n + a + extra for n, a in defn)
+    definition = '(%s)*2' % body if repeat else body
+    cfg = {'snippets': table, 'options': {'output.format': False, 'output.reverseAttributes': rev}}
+    r1 = ex(alias, cfg)
+    r2 = ex(definition, {'options': dict(cfg['options'])})
+    if r1 != r2:
+        return [('user-table:alias-attributes-on-several-top-level-elements', dict(table=table, alias=alias, definition=definition,
+                                                                                 reverse=rev, alias_output=r1, definition_output=r2))]
+    return []
+
+
 def shards(tier):
-    out = []
+    out = [dict(kind='multi')]
     for syn in ('html', 'xsl', 'pug'):
         keys = sorted(Config({'syntax': syn}).snippets)
         for i in range(0, len(keys), 12):
@@ -153,6 +175,21 @@ def check_builtin(syn, key, D, ctx_name, a, dd, rev):
 
 
 def run_shard(shard, ctx, tier):
+    if shard['kind'] == 'multi':
+        for di, defn in enumerate(MULTI_DEFS):
+            for extra in MULTI_EXTRAS:
+                for rev in (False, True):
+                    for repeat in (False, True):
+                        ctx.tick((di, extra, rev))
+                        ctx.states += 1
+                        ctx.transitions += 1
+                        ctx.evals += 2
+                        ctx.validated += 1
+                        ctx.nontrivial += 1
+                        for cls, d in check_multi(defn, extra, rev, repeat):
+                            ctx.violation(cls, dict(kind='multi', defn=di, extra=extra, reverse=rev, repeat=repeat), d)
+        ctx.sample(dict(kind='multi', definition='x.p+y.q', alias='ka.z'))
+        return
     if shard['kind'] == 'builtin':
         syn = shard['syntax']
         table = Config({'syntax': syn}).snippets
@@ -200,6 +237,8 @@ def run_shard(shard, ctx, tier):
 
 
 def check_case(case):
+    if case['kind'] == 'multi':
+        return check_multi(MULTI_DEFS[case['defn']], case['extra'], case['reverse'], case['repeat'])
     if case['kind'] == 'user':
         return check_user(case['table'], case['start'])[0]
     bad = check_builtin(case['syntax'], case['key'], None, case['context'], case['alias'], case['definition'], case['reverse'])
@@ -207,6 +246,8 @@ def check_case(case):
 
 
 def repro(case):
+    if case['kind'] == 'multi':
+        return '# see check_multi in mc/props/c14.py: %r\n' % (case,)
     if case['kind'] == 'user':
         return 'from emmet import expand\nprint(expand(%r, {"snippets": %r}))\n' % (case['start'], case['table'])
     cfg = {'syntax': case['syntax']}
